@@ -122,6 +122,11 @@ def mutate (mutation : String) (m : Message) (stale : Option Message) : Option M
   | "t1" => some (.cont a b)
   | "t2" => some (.fin a)
   | "s" => stale
+  -- the embedded payload followed by one extra byte: the outer message still decodes, the payload must not
+  | "p" => some (match m with
+      | .init sh => .init (sh ++ [0])
+      | .cont mm sh => .cont mm (sh ++ [0])
+      | .fin mm => .fin (mm ++ [0]))
   | _ => none
 
 def showParty : PartySt → String
